@@ -9,8 +9,8 @@
 //     buffer.capacity() : usize the allocated capacity in words
 //     repr.v() : int            the signed mathematical value of the Repr
 // EVERY contract in this file is a TRUSTED ASSUMPTION: it states what the real method does (file:line of the real
-// code next to each).  The real bodies are raw-pointer / union / transmute code outside Verus; the Kani groups on
-// buffer.rs / repr.rs (C05, C17) bounded-check the same statements on the real implementation.
+// code next to each).  The real bodies are raw-pointer / union / transmute code outside Verus (the storage layer itself
+// is the subject of C05 / C17, checked by Kani on the real implementation; nothing here is derived from those runs).
 // `TypedRepr` / `TypedReprRef` are the real enums, mirrored verbatim (repr.rs:69, repr.rs:76).
 //
 // Run-time panics of the real methods (`assert!`) are `requires` here: a verified caller can never trigger them.
